@@ -424,7 +424,7 @@ def _wit(d):
     return ', '.join('%s=%s' % (k, v) for k, v in sorted(env.items(), key=lambda kv: str(kv[0])))
 
 
-def compare_rows(ck, T, fn, spec_ret, rename, b, skip=(), skip_vals=()):
+def compare_rows(ck, T, fn, spec_ret, rename, b, skip=(), skip_vals=(), rule='T'):
     rows = T.return_rows()
     n = len(rename)
     def ren(txt):
@@ -443,17 +443,17 @@ def compare_rows(ck, T, fn, spec_ret, rename, b, skip=(), skip_vals=()):
                 ck.unanalysable('%s: %s = %s too large to compare' % (fn, path, val), str(e)); continue
             what = '%s%s%s' % (path.replace('|flags', ' contains ' if val else ' (flag set) is returned'), '' if path.endswith('|flags') else ' = ', v2)
             if d is None:
-                ck.ok('T', '%s: %s  <=>  %s' % (fn, what, fmt_cond(want)), where_of(b))
+                ck.ok(rule, '%s: %s  <=>  %s' % (fn, what, fmt_cond(want)), where_of(b))
             else:
                 env, a_, b_ = d
-                ck.violation('T', 'T : %s : %s' % (fn, what), where_of(b),
+                ck.violation(rule, '%s : %s : %s' % (rule, fn, what), where_of(b),
                              '%s yields %s under [%s]; H.263 / Sorenson define it under [%s]. They differ e.g. at %s (standard: %s, code: %s)' % (
                                  fn, what, fmt_cond(have), fmt_cond(want), _wit(d), a_, b_))
     for path, vals in sorted(rows.items()):
         if path in skip: continue
         for val, cond in sorted(vals.items()):
             if (path, val) in seen or val in skip_vals: continue
-            ck.violation('T', 'T : %s : %s = %s (not in the table)' % (fn, path, val or '<set>'), where_of(b),
+            ck.violation(rule, '%s : %s : %s = %s (not in the table)' % (rule, fn, path, val or '<set>'), where_of(b),
                          '%s can return %s %s under [%s], which the header table does not contain' % (fn, path, val, fmt_cond(cond)))
 
 
@@ -686,7 +686,7 @@ def picture_args(ck, F, T, name, b, spec, rename):
                 if ok: ck.ok('G', '%s = the previous picture\'s options, the empty set when there is none' % key, where_of(b, bb))
                 else: ck.violation('G', 'G : decode_picture : %s' % key, where_of(b, bb), '%s must be previous_picture.options (empty without a previous picture): %s' % (key, bad))
                 continue
-            compare_rows(ck, _P_({key: flat}), 'decode_picture', {key: w}, rename, b)
+            compare_rows(ck, _P_({key: flat}), 'decode_picture', {key: w}, rename, b, rule='G')
     for short in spec:
         if seen.get(short, 0) != 1:
             ck.violation('G', 'G : decode_picture : %s calls' % short, where_of(b), 'expected one call of %s, found %d' % (short, seen.get(short, 0)))
